@@ -201,7 +201,9 @@ def main():
                 if k: known_hits.setdefault(k['id'], (k, fl))
                 else: violations.append({'what': fl['what'], 'replay': fl, 'no_input': False})
             # a disagreement with the proved model that no property-level failure explains
-            unexplained = [d for d in diffs if not any(fl.get('case') == d[0] for fl in fails)]
+            excused = ev.get('excused', set())
+            failcases = {fl.get('case') for fl in fails}
+            unexplained = [d for d in diffs if d[0] not in failcases and d[0] not in excused]
             if unexplained and not [f for f in fails if not match_known(pid, f)]:
                 c, o, v = unexplained[0]
                 violations.append({'what': 'correspondence family %s: model and implementation disagree on %d case(s) and no property-level failure was found'
